@@ -90,3 +90,29 @@ if not getattr(_c.IndexDataCacheFile, "_verif_locked", False):
     _c.IndexDataCacheFile.save = _save
     _c.IndexDataCacheFile.load = _load
     _c.IndexDataCacheFile._verif_locked = True
+
+
+# ---------------------------------------------------------------------------------------------
+# concurrent.futures.wait is usually bound by `from concurrent.futures import wait` at import time.
+# Install a dispatcher BEFORE strax is imported, so that code which (newly) imports it still blocks
+# through the controlled scheduler when it is handed scheduler-controlled futures.
+import concurrent.futures as _cf  # noqa: E402
+
+if not getattr(_cf.wait, "_verif_smart", False):
+    _real_wait = _cf.wait
+
+    def _smart_wait(fs, timeout=None, return_when=_cf.ALL_COMPLETED):
+        try:
+            from vlib import vsched
+        except Exception:  # pragma: no cover
+            return _real_wait(fs, timeout=timeout, return_when=return_when)
+        fs = list(fs)
+        if vsched.SCHED is not None and fs and all(isinstance(f, vsched.VFuture) for f in fs):
+            return vsched.vwait(fs, timeout=timeout, return_when=return_when)
+        return _real_wait(fs, timeout=timeout, return_when=return_when)
+
+    _smart_wait._verif_smart = True
+    _cf.wait = _smart_wait
+    import concurrent.futures._base as _cfb
+
+    _cfb.wait = _smart_wait
